@@ -32,13 +32,25 @@ func globalIdent(old ast.GlobalIdent) ir.GlobalIdent {
 	ident = ident[len(prefix):]
 	// positive integer -> ID
 	// everything else (including negative integer) -> Name
-	if id, err := strconv.ParseInt(ident, 10, 64); err == nil && id >= 0 {
+	if id, err := strconv.ParseInt(ident, 10, 64); err == nil && id >= 0 && isDecimal(ident) {
 		return ir.GlobalIdent{GlobalID: id}
 	}
 	// Unquote after trying to parse as ID, since @"42" is recognized as named
 	// and not unnamed.
 	ident = unquote(ident)
 	return ir.GlobalIdent{GlobalName: ident}
+}
+
+// isDecimal reports whether s consists of decimal digits only. An identifier
+// with a sign (e.g. @-0, %-0 or the label -0:) is a name, not an ID, although
+// strconv.ParseInt accepts it.
+func isDecimal(s string) bool {
+	for i := 0; i < len(s); i++ {
+		if s[i] < '0' || s[i] > '9' {
+			return false
+		}
+	}
+	return len(s) > 0
 }
 
 // --- [ Local identifiers ] ---------------------------------------------------
@@ -54,7 +66,7 @@ func localIdent(old ast.LocalIdent) ir.LocalIdent {
 	ident = ident[len(prefix):]
 	// positive integer -> ID
 	// everything else (including negative integer) -> Name
-	if id, err := strconv.ParseInt(ident, 10, 64); err == nil && id >= 0 {
+	if id, err := strconv.ParseInt(ident, 10, 64); err == nil && id >= 0 && isDecimal(ident) {
 		return ir.LocalIdent{LocalID: id}
 	}
 	// Unquote after trying to parse as ID, since %"42" is recognized as named
@@ -76,7 +88,7 @@ func labelIdent(old ast.LabelIdent) ir.LocalIdent {
 	ident = ident[:len(ident)-len(suffix)]
 	// positive integer -> ID
 	// everything else (including negative integer) -> Name
-	if id, err := strconv.ParseInt(ident, 10, 64); err == nil && id >= 0 {
+	if id, err := strconv.ParseInt(ident, 10, 64); err == nil && id >= 0 && isDecimal(ident) {
 		return ir.LocalIdent{LocalID: id}
 	}
 	// Unquote after trying to parse as ID, since %"42" is recognized as named
